@@ -411,7 +411,7 @@ fn main() {
         "memory half: this monitor and all others are re-run under Miri (without an aliasing model: the crate deliberately holds two unique references) and AddressSanitizer by the thorough tier; canaries and guard fields catch adjacent overwrites natively".into(),
     ];
     ctx.arm("c19", 1800.0);
-    let n = ctx.volume(15_000, 700_000, 120, 5_000);
+    let n = ctx.volume(60_000, 1_000_000, 120, 5_000);
     ctx.run_cases("programs", n, |ctx, _i, rng| one(ctx, rng));
     ctx.disarm();
     ctx.finish();
